@@ -109,7 +109,12 @@ def run(ctx, pq):
             cmds.append(("wr_defs_nonull", dpv, n))
             meta.append(("nonull", dpv, n, None, bytes(block)))
             if n <= 2 ** 14:
-                for m in mask_patterns(rng, n):
+                pats = mask_patterns(rng, n)
+                if ctx.quick() and n > 1025:
+                    # the extracted writer model is quadratic in the mask length (1 s at 8192): quick tier = the alternating and the
+                    # random pattern around 8192 and one random pattern at 2^14; every pattern in the thorough tier
+                    pats = pats[-2:] if n < 2 ** 14 else pats[-1:]
+                for m in pats:
                     vals = np.arange(n, dtype="float64")
                     vals[[i for i, b in enumerate(m) if not b]] = np.nan
                     block, out = writer.make_definitions(pd.Series(vals), False, datapage_version=dpv)
